@@ -268,6 +268,11 @@ func genPkg(t *rapid.T, m *modspec.Mod, idx int, dir, name string, o modOpts, la
 		} else if rapid.IntRange(0, 3).Draw(t, "plaindoc") == 0 {
 			f.PkgDoc = []string{"Package " + name + " has prose only."}
 		}
+		if nfiles >= 2 && rapid.IntRange(0, 2).Draw(t, "filenote") == 0 {
+			// every file's package doc gives its own value for the same (generator-irrelevant) tag key: whichever value is
+			// reported for the package must be the same in every run
+			f.PkgDoc = append(f.PkgDoc, "+vt:note="+f.Name)
+		}
 		if rapid.IntRange(0, 4).Draw(t, "header") == 0 {
 			f.Header = []string{"Copyright header", "+gengo:" + o.gens[0]}
 		}
@@ -301,7 +306,7 @@ func genPkg(t *rapid.T, m *modspec.Mod, idx int, dir, name string, o modOpts, la
 				f.Decls = append(f.Decls, g)
 			case k <= 8 && o.locals:
 				nfn++
-				fn := modspec.Decl{Kind: "func", Name: fmt.Sprintf("fn%d_%d", fi, nfn)}
+				fn := modspec.Decl{Kind: "func", Name: fmt.Sprintf("fn%d_%d", fi, nfn), AsVar: rapid.IntRange(0, 3).Draw(t, "asvar") == 0}
 				if k == 8 && len(pkgLevel) > 0 {
 					fn.Kind = "genericfunc"
 					fn.TP = "T"
